@@ -2,11 +2,11 @@ package sim
 
 import (
 	"crypto/sha256"
-	"strings"
 	"fmt"
 	"math/big"
 	"sort"
 	"strconv"
+	"strings"
 	"time"
 
 	"mhubsim/ext"
@@ -47,15 +47,16 @@ func expired(w *World, e *mhub2types.SendToExternal, now time.Time) bool {
 type C04 struct {
 	refundedSeen map[string]bool
 	BaseOracle
-	extDone  map[string]string // chain/id -> batch key under which the external chain executed the transfer
-	maxID    map[string]uint64
-	terminal map[string]string // chain/id -> "refunded" | "executed"
-	userTx   map[string]string // chain/id -> tx hash of the user's MsgSendToExternal
+	extDone       map[string]string // chain/id -> batch key under which the external chain executed the transfer
+	maxID         map[string]uint64
+	terminal      map[string]string // chain/id -> "refunded" | "executed"
+	userTx        map[string]string // chain/id -> tx hash of the user's MsgSendToExternal
 	pendingCancel map[string]bool
 	pendingBatch  *mhub2types.BatchTx
 }
 
 func (*C04) Property() string { return "C04" }
+
 // PreExtCall/OnExtCall: remember which transfers the external chain has really executed.
 func (o *C04) PreExtCall(w *World, c *ExtCall, ss *mhub2types.SignerSetTx, b *mhub2types.BatchTx, cc *mhub2types.ContractCallTx, sigs []ext.Sig) {
 	o.pendingBatch = b
